@@ -7,22 +7,18 @@ of its last `sync`; every name independently is bound as in the directory or as 
 of the last `syncDir` (`crashPowerWith`, all choices). The size a fresh file gets from
 `ftruncate` right after `open(O_CREAT)` is taken to be durable with its directory entry.
 
-* `C10_power_safeStatement` — the property: for SyncWrites, every history, every power-loss
-  choice: `Open` succeeds and finds the first `k` commits, `acked ≤ k ≤ issued`.
-* **It is false for the code as it is (finding F4).** badger never fsyncs the directory after
-  creating a `.mem`, a `.vlog` or a flushed `.sst` file (`z.OpenMmapFile` skips its `SyncDir` for
-  files it has just sized), so
+* `C10_power_safeStatement` — the property for the code as it is (`Cfg.dirSyncFix = true`: the
+  directory is fsynced after a `.mem` / `.vlog` file is created and between the msync of a
+  flushed table and its MANIFEST record): for SyncWrites, every history, every power-loss
+  choice, `Open` succeeds and finds the first `k` commits, `acked ≤ k ≤ issued`.
+* Regression witnesses for the protocol *before* the repair of finding F4 (`dirSyncFix = false`:
+  no directory fsync at those three places):
   - `C10_counterexample` : a commit acknowledged right after a memtable rotation is lost when
-    the new `.mem`'s directory entry does not survive (recovered state: nothing; acknowledged: 1);
+    the new `.mem`'s directory entry does not survive (recovered: nothing; acknowledged: 1);
   - `C10_counterexample_table` : a flushed table is recorded in the fsynced MANIFEST while its
     own directory entry is not durable: `Open` fails with "file does not exist for table 1".
-  Both are replayed on the real code by the harness (corpus/C10/f4.ops, tag
-  `[F4:no-dirsync-new-file]`).
-* `C10_power_safe_fixedStatement` — the same property for the protocol variant
-  `Cfg.dirSyncFix` (fsync of the new log file and of the directory right after creating it;
-  fsync of the directory between the table's msync and its MANIFEST record): the intended fix.
-  `C10_fixed_witness_wal` / `C10_fixed_witness_table` show that the two counterexamples disappear under it; the general
-  proof is not done (see `partial` in props/C10.json).
+  `C10_fixed_witness_wal` / `C10_fixed_witness_table`: the same two scenarios under the repaired
+  protocol survive the loss of *everything* unsynced. Replay on the real code: corpus/C10/f4.ops.
 -/
 namespace Badger
 
@@ -35,11 +31,11 @@ def PowerSafe (R : ViewRel) (c : Cfg) : Prop :=
 
 /-- C10 for the code as it is -/
 def C10_power_safeStatement (R : ViewRel) : Prop :=
-  ∀ c : Cfg, c.syncWrites = true → c.dirSyncFix = false → PowerSafe R c
-
-/-- C10 for the protocol with the missing syncs inserted -/
-def C10_power_safe_fixedStatement (R : ViewRel) : Prop :=
   ∀ c : Cfg, c.syncWrites = true → c.dirSyncFix = true → PowerSafe R c
+
+/-- the same claim for the protocol before the repair of F4 (false: `C10_counterexample`) -/
+def C10_power_safe_oldStatement (R : ViewRel) : Prop :=
+  ∀ c : Cfg, c.syncWrites = true → c.dirSyncFix = false → PowerSafe R c
 
 def f4Ent : CEnt := { key := [1], ver := 0, del := false, val := [1] }
 
@@ -54,17 +50,17 @@ def entsOf : Except RecErr RState → Option (List CEnt)
 
 set_option maxHeartbeats 1000000 in
 theorem C10_f4_facts :
-    ((MState.init {}).exec f4History).p.acked = 1 ∧
-    ((MState.init {}).exec f4History).p.commits = [{ ts := 1, ents := [{ f4Ent with ver := 1 }] }] ∧
-    entsOf (recover false (crashPowerWith ((MState.init {}).exec f4History).fs (fun p => p != .mem 2) (fun _ => true)))
+    ((MState.init { dirSyncFix := false }).exec f4History).p.acked = 1 ∧
+    ((MState.init { dirSyncFix := false }).exec f4History).p.commits = [{ ts := 1, ents := [{ f4Ent with ver := 1 }] }] ∧
+    entsOf (recover false (crashPowerWith ((MState.init { dirSyncFix := false }).exec f4History).fs (fun p => p != .mem 2) (fun _ => true)))
       = some [] := by
   decide +kernel
 
 /-- F4, first form: the acknowledged commit is gone after a power loss that takes the
     never-fsynced directory entry of the new WAL file -/
-theorem C10_counterexample : ¬ C10_power_safeStatement setView := by
+theorem C10_counterexample : ¬ C10_power_safe_oldStatement setView := by
   intro h
-  obtain ⟨r, hr, k, hk1, hk2, hv⟩ := h {} rfl rfl f4History (by simp [f4History, HistOk])
+  obtain ⟨r, hr, k, hk1, hk2, hv⟩ := h { dirSyncFix := false } rfl rfl f4History (by simp [f4History, HistOk])
     (fun p => p != .mem 2) (fun _ => true)
   obtain ⟨ha, hc, he⟩ := C10_f4_facts
   rw [hr] at he
@@ -85,25 +81,24 @@ set_option maxHeartbeats 1000000 in
 /-- F4, second form: the MANIFEST (fsynced) lists table 1, whose directory entry was never
     fsynced: `Open` fails with "file does not exist for table 1" -/
 theorem C10_counterexample_table :
-    errOf (recover false (crashPowerWith ((MState.init {}).exec f4TableHistory).fs (fun p => p != .sst 1) (fun _ => true)))
+    errOf (recover false (crashPowerWith ((MState.init { dirSyncFix := false }).exec f4TableHistory).fs (fun p => p != .sst 1) (fun _ => true)))
       = some (.missingTable 1) := by
   decide +kernel
 
 /-! ### the fixed protocol on the same two scenarios -/
 
-/-- the rotation of the fixed protocol has two more atoms (fsync of the new file, fsync of the
-    directory); the flush has one more (fsync of the directory before the MANIFEST record) -/
+/-- the rotation of the repaired protocol has one more atom (fsync of the directory); the flush has one more (fsync of the directory before the MANIFEST record) -/
 def f4HistoryFixed : List Sched :=
-  [.flushReq, .w, .w, .w, .w, .w, .w, .f, .commit [f4Ent] false, .w, .w, .w, .w, .w, .w, .w]
+  [.flushReq, .w, .w, .w, .w, .w, .f, .commit [f4Ent] false, .w, .w, .w, .w, .w, .w, .w]
 
 def f4TableHistoryFixed : List Sched :=
-  [.commit [f4Ent] false, .w, .w, .w, .w, .w, .w, .w, .flushReq, .w, .w, .w, .w, .w, .w, .f, .f, .f, .f, .f, .f]
+  [.commit [f4Ent] false, .w, .w, .w, .w, .w, .w, .w, .flushReq, .w, .w, .w, .w, .w, .f, .f, .f, .f, .f, .f]
 
 set_option maxHeartbeats 1000000 in
 /-- under the fixed protocol the commit of the first scenario survives even when *nothing*
     unsynced survives -/
 theorem C10_fixed_witness_wal :
-    entsOf (recover false (crashPowerWith ((MState.init { dirSyncFix := true }).exec f4HistoryFixed).fs
+    entsOf (recover false (crashPowerWith ((MState.init {}).exec f4HistoryFixed).fs
       (fun _ => false) (fun _ => false))) = some [{ f4Ent with ver := 1 }] := by
   decide +kernel
 
@@ -111,7 +106,7 @@ set_option maxHeartbeats 1000000 in
 /-- … and the second scenario re-opens (the entry is found in the table and in the not yet
     deleted WAL) -/
 theorem C10_fixed_witness_table :
-    entsOf (recover false (crashPowerWith ((MState.init { dirSyncFix := true }).exec f4TableHistoryFixed).fs
+    entsOf (recover false (crashPowerWith ((MState.init {}).exec f4TableHistoryFixed).fs
       (fun _ => false) (fun _ => false))) = some [{ f4Ent with ver := 1 }, { f4Ent with ver := 1 }] := by
   decide +kernel
 
